@@ -77,7 +77,9 @@ def make_recipe(rng, tier):
         point_penalty_scale=float(rng.choice([0.1, 0.3, 0.6, 1.0, 2.0])), min_segment_length=m,
         max_segment_length=int(rng.integers(m, 40)), ignore_point_anomalies=False)
     return {"det": spec, "X": X, "index": (INDEX_KINDS + TIED_INDEX_KINDS)[int(rng.integers(7))],
-            "columns": ["default", "strings", "duplicate", "printsame"][int(rng.integers(4))]}
+            "columns": ["default", "strings", "duplicate", "printsame"][int(rng.integers(4))],
+            "history": [None, None, "same_object", "inplace"][int(rng.integers(4))],
+            "hseed": int(rng.integers(2 ** 31))}
 
 
 def exec_case(ctx, r):
@@ -93,7 +95,25 @@ def exec_case(ctx, r):
     sub = "affected-columns"
     I.drain()
     try:
-        det = build(spec).fit(df)
+        hist = r.get("history")
+        ctx.stat(f"history[{hist}]")
+        hr = np.random.default_rng(r.get("hseed", 0))
+        if hist == "inplace":
+            # the caller's frame holds other values while fitting and predicting once, and is then
+            # overwritten IN PLACE with X: the judged calls get the same object again
+            df0 = make_frame(hr.standard_normal((n, p)) * 2.0, r["index"], r["columns"])
+            det = build(spec).fit(df0)
+            det.predict(df0)
+            det.transform(df0)
+            df0.iloc[:, :] = X
+            df = df0
+        elif hist == "same_object":
+            det = build(spec).fit(df)
+            det.predict(df)
+            nb = n + int(hr.integers(0, n + 1))
+            det.predict(make_frame(hr.standard_normal((nb, p)) * 2.0, r["index"], r["columns"]))
+        else:
+            det = build(spec).fit(df)
         y = det.predict(df)
         dense = det.transform(df)
     except Exception as ex:
@@ -119,7 +139,7 @@ def exec_case(ctx, r):
         s_sorted = sv[order]
         cum = np.cumsum(s_sorted - betas) - alpha
         k = int(np.argmax(cum)) + 1
-        width = 1e-9 * (1 + np.abs(sv).max())
+        width = 1e-9 * (np.abs(sv).max() + abs(alpha) + np.abs(betas).max()) + 1e-300  # relative only
         second = np.partition(cum, -2)[-2] if p >= 2 else -np.inf
         ambiguous = (cum[k - 1] - second <= width) or np.any(np.abs(np.diff(s_sorted[:k + 1])) <= width)
         if ambiguous:
